@@ -197,29 +197,42 @@ class Code310(Code38):
         in lnotab_notes.txt.
 
         """
-        co_linetable = b""
+        co_linetable = bytearray()
 
+        # Each entry of the 3.10 table describes a *range* of bytecode:
+        # (length of the range, line increment applied at its start).
+        # An (offset, line) pair therefore ends where the next one
+        # starts, and the last one at the end of the bytecode.
+        entries = list(self.co_linetable)
+        code_len = len(self.co_code)
         prev_line_number = self.co_firstlineno
-        prev_offset = 0
-        offset_diff = 0
 
-        for offset, line_number in self.co_linetable:
+        if entries and entries[0][0] > 0:
+            # bytecode before the first pair has no line: increment -128
+            no_line_len = entries[0][0]
+            while no_line_len > 254:
+                co_linetable += bytearray([254, 0x80])
+                no_line_len -= 254
+            co_linetable += bytearray([no_line_len, 0x80])
+
+        for i, (offset, line_number) in enumerate(entries):
+            end_offset = entries[i + 1][0] if i + 1 < len(entries) else code_len
+            offset_diff = end_offset - offset
             line_diff = line_number - prev_line_number
             prev_line_number = line_number
-            offset_diff = offset - prev_offset
-            prev_offset = offset
-            while offset_diff >= 256:
-                co_linetable += bytearray([255, 0])
-                offset_diff -= 255
-            co_linetable += bytearray([offset_diff, line_diff % 256])
-            while line_diff >= 127:
+            while line_diff > 127:
                 co_linetable += bytearray([0, 127])
                 line_diff -= 127
             while line_diff < -127:
-                co_linetable += bytearray([0, -127])
-                line_diff -= 127
+                co_linetable += bytearray([0, -127 & 0xFF])
+                line_diff += 127
+            while offset_diff > 254:
+                co_linetable += bytearray([254, line_diff & 0xFF])
+                line_diff = 0
+                offset_diff -= 254
+            co_linetable += bytearray([offset_diff, line_diff & 0xFF])
 
-        self.co_linetable = co_linetable
+        self.co_linetable = bytes(co_linetable)
 
     def freeze(self):
         for field in "co_consts co_names co_varnames co_freevars co_cellvars".split():
